@@ -597,7 +597,7 @@ def _separated(kk):
     if isinstance(kk, tuple) and kk and kk[0] == "tuple":
         return all(_separated(x) for x in kk[1:])      # tuples are injective in their components
     if not (isinstance(kk, tuple) and kk and kk[0] == "fstr"):
-        return isinstance(kk, tuple) and kk and kk[0] in ("param", "const")
+        return True      # a single value (parameter, attribute, call result) is its own key component
     prev_var = False
     for part in kk[1:]:
         is_var = not (isinstance(part, tuple) and part and part[0] == "const")
@@ -664,7 +664,116 @@ def nondet_sites(prog, f):
                     yield (n, f"call into a nondeterminism source ({d})")
         elif isinstance(n, ast.Attribute) and n.attr == "environ" and isinstance(n.value, ast.Name) and n.value.id == "os":
             yield (n, "read of os.environ")
-        elif isinstance(n, (ast.For, ast.comprehension)):
-            it = n.iter
-            if isinstance(it, (ast.Set, ast.SetComp)) or (isinstance(it, ast.Call) and isinstance(it.func, ast.Name) and it.func.id in ("set", "frozenset")):
-                yield (it, "iteration over a set (order depends on hashing)")
+    # iteration over set-typed values whose elements are not all integers (string hashing is salted per process)
+    sets = SetTypes(prog, f)
+    exempt = set()
+    for n in ast.walk(f.node):
+        # a generator consumed directly by an order-insensitive reducer is harmless
+        if isinstance(n, ast.Call) and isinstance(n.func, ast.Name) and n.func.id in ORDER_INSENSITIVE and n.args and \
+                isinstance(n.args[0], (ast.GeneratorExp, ast.ListComp, ast.SetComp)):
+            for g in n.args[0].generators:
+                exempt.add(id(g))
+        if isinstance(n, (ast.SetComp,)):
+            for g in n.generators:
+                exempt.add(id(g))
+    for n in ast.walk(f.node):
+        if isinstance(n, (ast.For, ast.comprehension)) and id(n) not in exempt:
+            if sets.is_set(n.iter):
+                yield (n.iter, "iteration over a set of non-integers: the order depends on the per-process hash seed")
+        elif isinstance(n, ast.Call) and isinstance(n.func, ast.Name) and n.func.id in ("list", "tuple", "next", "enumerate", "zip") and n.args:
+            a0 = n.args[0]
+            if isinstance(a0, ast.Call) and isinstance(a0.func, ast.Name) and a0.func.id == "iter" and a0.args:
+                a0 = a0.args[0]
+            if sets.is_set(a0):
+                yield (n, f"{n.func.id}() of a set of non-integers: the order depends on the per-process hash seed")
+        elif isinstance(n, ast.Call) and isinstance(n.func, ast.Attribute) and n.func.attr in ("pop",) and not n.args and sets.is_set(n.func.value):
+            yield (n, "set.pop() returns an arbitrary element")
+        elif isinstance(n, ast.Call) and isinstance(n.func, ast.Attribute) and n.func.attr == "join" and n.args and sets.is_set(n.args[0]):
+            yield (n, "str.join over a set: the order depends on the per-process hash seed")
+
+
+ORDER_INSENSITIVE = {"all", "any", "sum", "set", "frozenset", "sorted", "min", "max", "len"}
+
+
+class SetTypes:
+    """which expressions of a function evidently denote a set with non-integer elements"""
+
+    def __init__(self, prog, f):
+        self.prog, self.f = prog, f
+        self.local = {}
+        loc = prog._locals(f)
+        self.loc = loc
+        for _ in range(2):
+            for n in ast.walk(f.node):
+                if isinstance(n, ast.Assign) and len(n.targets) == 1 and isinstance(n.targets[0], ast.Name):
+                    if self.is_set(n.value):
+                        self.local[n.targets[0].id] = "set"
+                    elif self.is_dict_of_sets(n.value):
+                        self.local[n.targets[0].id] = "dictofsets"
+                elif isinstance(n, (ast.For, ast.comprehension)):
+                    it, tg = n.iter, n.target
+                    if isinstance(it, ast.Call) and isinstance(it.func, ast.Attribute) and it.func.attr in ("items", "values") and self.is_dict_of_sets(it.func.value):
+                        if it.func.attr == "items" and isinstance(tg, ast.Tuple) and len(tg.elts) == 2 and isinstance(tg.elts[1], ast.Name):
+                            self.local[tg.elts[1].id] = "set"
+                        elif it.func.attr == "values" and isinstance(tg, ast.Name):
+                            self.local[tg.id] = "set"
+
+    def _module_value(self, name):
+        if name in self.loc:
+            return None
+        r = self.prog.lookup_global(self.f.module, name)
+        if r and r[0] == "var":
+            vals = r[1].assigns.get(r[2], [])
+            return vals[-1] if vals else None
+        return None
+
+    def _nonint_set_literal(self, e):
+        if isinstance(e, ast.Set):
+            return not all(isinstance(x, ast.Constant) and isinstance(x.value, int) for x in e.elts)
+        if isinstance(e, ast.SetComp):
+            return True
+        if isinstance(e, ast.Call) and isinstance(e.func, ast.Name) and e.func.id in ("set", "frozenset"):
+            if e.args and isinstance(e.args[0], ast.Call) and isinstance(e.args[0].func, ast.Name) and e.args[0].func.id == "range":
+                return False
+            return True
+        return False
+
+    def is_dict_of_sets(self, e, depth=0):
+        if depth > 4:
+            return False
+        if isinstance(e, ast.Dict):
+            return bool(e.values) and all(self._nonint_set_literal(v) for v in e.values)
+        if isinstance(e, ast.Name):
+            if self.local.get(e.id) == "dictofsets":
+                return True
+            mv = self._module_value(e.id)
+            return mv is not None and self.is_dict_of_sets(mv, depth + 1)
+        return False
+
+    def is_set(self, e, depth=0):
+        if depth > 4:
+            return False
+        if self._nonint_set_literal(e):
+            return True
+        if isinstance(e, ast.Name):
+            if self.local.get(e.id) == "set":
+                return True
+            mv = self._module_value(e.id)
+            return mv is not None and self.is_set(mv, depth + 1)
+        if isinstance(e, ast.Subscript):
+            return self.is_dict_of_sets(e.value, depth + 1)
+        if isinstance(e, ast.Call) and isinstance(e.func, ast.Attribute):
+            if e.func.attr in ("union", "intersection", "difference", "symmetric_difference", "copy") and self.is_set(e.func.value, depth + 1):
+                return True
+            if e.func.attr == "get" and self.is_dict_of_sets(e.func.value, depth + 1):
+                return True
+            if e.func.attr == "keys":
+                return False
+        if isinstance(e, ast.BinOp) and isinstance(e.op, (ast.BitOr, ast.BitAnd, ast.Sub, ast.BitXor)):
+            return self.is_set(e.left, depth + 1) or self.is_set(e.right, depth + 1)
+        return False
+
+
+def _unused():
+    if False:
+        yield None
